@@ -303,6 +303,7 @@ func (c *c06Case) judge(rec *vlib.Rec, idx int, o *c06Obs) c06Reaction {
 		taw = 1
 	}
 	rec.Count(fmt.Sprintf("l%d_react_%s", c.layer, got.strongest()), 1)
+	rec.Count(fmt.Sprintf("l%d_react_%s_%s_taw%d", c.layer, got.strongest(), c.sess.pt, taw), 1)
 	if len(c.faults) == 1 {
 		if !allowed.admits(got) {
 			key := fmt.Sprintf("c06:%s:%s:taw%d:%s-not-in-%s", fam, c.sess.pt, taw, got, allowed)
